@@ -371,22 +371,32 @@ class Checker:
         idx = [i for i, r in enumerate(res) if r[0] != "T" and len(jobs[i][1]) < 200000 and not any("\0" in a for a in jobs[i][0])]
         if idx and selftest_n:
             self.selftested += batch.selftest([jobs[i] for i in idx], [res[i] for i in idx], n=selftest_n)
-        for job, r, meta in zip(jobs, res, metas):
+        cands = []
+        for i, (job, r, meta) in enumerate(zip(jobs, res, metas)):
             rep.input(); rep.trans(1)
-            self.codes[r[0] if not r[0].startswith("DIED") else "DIED"] = self.codes.get(r[0] if not r[0].startswith("DIED") else "DIED", 0) + 1
+            hk = r[0] if not r[0].startswith("DIED") else "DIED"
+            self.codes[hk] = self.codes.get(hk, 0) + 1
             rep.seen((job[0][0], tuple(job[0][1:3]), r[0], len(r[1]) > 0, r[2][:40]))
             if r[0] == "T":
                 self.undecided += 1
                 rep.notes.append(f"undecided (watchdog {JOB_CPU_S}s cpu): {space} {' '.join(job[0])[:120]} label={meta.get('label', '')}")
-                continue
-            if not batch.crashed(r[0]):
-                continue
-            # candidate: re-run as a real process (confirmation + the stderr that names the cause)
-            sp = spawn_limited(job[0], job[1])
+            elif batch.crashed(r[0]):
+                cands.append(i)
+        # every candidate is re-run as a real process (confirmation + the stderr that names the cause);
+        # a few at a time: process creation is the scarce resource here
+        with ThreadPoolExecutor(6) as ex:
+            spawned = list(ex.map(lambda i: spawn_limited(jobs[i][0], jobs[i][1]), cands))
+        for i, sp in zip(cands, spawned):
+            job, r, meta = jobs[i], res[i], metas[i]
             self.confirmed += 1
             seam = meta.get("seam") or seam_of(job[0])
+            family = meta.get("family", "")
+            if space.endswith("/nesting") and not meta.get("seam"):
+                # a stack overflow on a nested *document* cannot be attributed to an API from outside the process:
+                # one signature per tool (the library half names the API stage)
+                seam, family = f"cli:{job[0][0]}:nested-document", ""
             key = seam + "|" + (meta.get("key") or meta.get("label") or "")
-            verdict, sig = classify(job, sp, seam, meta.get("family", ""), key)
+            verdict, sig = classify(job, sp, seam, family, key)
             if verdict == "ok":
                 rep.notes.append(f"batch-only crash not reproduced by a real process: {space} {' '.join(job[0])[:100]} batch={r[0]} real={sp[0]}")
                 rep.fail(f"batch-only:{seam}", len(job[1]), batch.job_example(job, r, space=space, **meta))
@@ -394,10 +404,10 @@ class Checker:
                 self.undecided += 1
                 rep.notes.append(f"undecided ({sig}): {space} {' '.join(job[0])[:120]}")
             else:
-                ex = batch.job_example(job if len(job[1]) <= 8192 else (job[0], job[1][:8192]), sp, space=space, **meta)
+                ex_ = batch.job_example(job if len(job[1]) <= 8192 else (job[0], job[1][:8192]), sp, space=space, **meta)
                 if len(job[1]) > 8192:
-                    ex["stdin_truncated_from"] = len(job[1])
-                rep.fail(sig, len(job[1]) + len(" ".join(job[0])), ex)
+                    ex_["stdin_truncated_from"] = len(job[1])
+                rep.fail(sig, len(job[1]) + len(" ".join(job[0])), ex_)
 
     def finish(self):
         rep = self.rep
@@ -448,6 +458,8 @@ def replay(ctx, rep):
         elif hit:
             job = (job[0], hit[0])
     seam = case.get("seam") or seam_of(job[0])
+    if space.endswith("/nesting") and not case.get("seam"):
+        seam, case = f"cli:{job[0][0]}:nested-document", dict(case, family="")
     sigs = []
     for _ in range(2):
         sp = spawn_limited(job[0], job[1])
@@ -467,13 +479,15 @@ def run(ctx):
     rep = batch.Report()
     if ctx["replay"]:
         return replay(ctx, rep)
+    t0 = time.time()
     S = load_spec(tier)
+    seeds = load_spec("quick")          # the CLI half mutates the quick seed set in both tiers (the library half takes the larger one)
     ck = Checker(rep)
-    jl, yl, dl, pl = (3, 3, 6, 2) if quick else (4, 4, 8, 3)
+    jl, yl, dl, pl = (3, 3, 6, 2) if quick else (3, 3, 6, 3)
     mb = S["mutation_bytes_cli"]
 
-    def tok(alpha, n):
-        return [(s, {}) for s in soups(alpha, n)]
+    def tok(alpha, n, lo=0):
+        return [(s, {}) for s in soups(alpha, n) ] if lo == 0 else [(b"".join(c), {}) for k in range(lo, n + 1) for c in itertools.product(alpha, repeat=k)]
 
     jobs, metas = cross(tok(S["JT"], jl), J_ARGV)
     ck.run("cli/json/tokens", jobs, metas, f"all strings of 0..={jl} tokens over the 22-token JSON alphabet x {len(J_ARGV)} command lines")
@@ -482,19 +496,19 @@ def run(ctx):
     jobs, metas = cross(tok(S["DT"], dl), D_ARGV)
     ck.run("cli/dsv/tokens", jobs, metas, f"all strings of 0..={dl} symbols over the 5 DSV symbols")
 
-    def muts(seeds):
+    def muts(sd):
         seen, out = set(), []
-        for s in seeds:
-            for v, kind in variants(s, mb):
+        for x in sd:
+            for v, kind in variants(x, mb):
                 if v not in seen:
                     seen.add(v); out.append((v, {"label": kind}))
         return out
 
-    for name, seeds, argvs in (("json", S["json_seeds"], J_ARGV), ("yaml", S["yaml_seeds"], Y_ARGV), ("dsv", S["dsv_seeds"], D_ARGV)):
-        ins = muts(seeds)
+    for name, sd, argvs in (("json", seeds["json_seeds"], J_ARGV), ("yaml", seeds["yaml_seeds"], Y_ARGV), ("dsv", seeds["dsv_seeds"], D_ARGV)):
+        ins = muts(sd)
         jobs, metas = cross(ins, argvs)
         ck.run(f"cli/{name}/mutations", jobs, metas,
-               f"{len(seeds)} seed documents: the seed, every prefix, every position x {len(mb)} bytes substituted, every single-byte deletion = {len(ins)} distinct inputs x {len(argvs)} command lines")
+               f"{len(sd)} seed documents: the seed, every prefix, every position x {len(mb)} bytes substituted, every single-byte deletion = {len(ins)} distinct inputs x {len(argvs)} command lines")
 
     # nesting families (documents above 2 MB — the quadratic block-indentation shapes at depth 5000 — only in thorough)
     cap = 2_000_000 if quick else 30_000_000
@@ -521,6 +535,32 @@ def run(ctx):
             os.remove(p)
         except OSError:
             pass
+
+    if not quick:
+        # one token more, in slices by first token under a wall budget: every input of these slices is also run by the
+        # library half, so hitting the budget on a loaded machine narrows only the CLI confirmation
+        budget_s = 420
+
+        def slices(space, alpha, n, argvs, what):
+            done = 0
+            rep.space(space, True, "")
+            for first in alpha:
+                if time.time() - t0 > budget_s:
+                    break
+                ins = [(first + b"".join(c), {}) for c in itertools.product(alpha, repeat=n - 1)]
+                jobs, metas = cross(ins, argvs)
+                ck.run(space, jobs, metas, "", selftest_n=2)
+                done += 1
+            complete = done == len(alpha)
+            rep.subspaces[space]["exhaustive"] = complete
+            rep.subspaces[space]["note"] = f"all strings of exactly {n} {what} x {len(argvs)} command lines, in {len(alpha)} slices by first token: {done} slices run" + ("" if complete else f" (wall budget of {budget_s}s reached)")
+            if not complete:
+                rep.caps.append(f"{space}: wall budget reached after {done} of {len(alpha)} slices (the library half covers all of them)")
+
+        for n in (7, 8):
+            slices(f"cli/dsv/tokens-{n}", S["DT"], n, D_ARGV, "DSV symbols")
+        slices("cli/json/tokens-4", S["JT"], 4, J_ARGV, "JSON tokens")
+        slices("cli/yaml/tokens-4", S["YT"], 4, Y_ARGV, "YAML tokens")
     ck.finish()
     rep.sample({"space": "cli/yaml/tokens", "argv": ["yq", "-o", "json", "."], "stdin": "&a: *a\n- ", "oracle": "exit status with a value or a reported error; never 101 / 134 / signal"})
     rep.sample({"space": "cli/json/mutations", "argv": ["jq", "-c", ".a"], "stdin": "{\"a\":\"\\ud83d\\ude0", "variant": "truncate"})
